@@ -255,6 +255,25 @@ def gen_C03(rng, tier):
             for q in ('access', 'rank1', 'rank0', 'predecessor1', 'successor1'): L.append('q 0 %s %d' % (q, p_))
         L.append('q 0 size_in_bytes')
         cases.append(L)
+    # the final partial 1024-block of the high bits holds 32j+1 ones whose ends are exactly `span` apart (the dense/sparse
+    # threshold of the DArray behind the Elias-Fano code): 65536 ones at the front, low width 2
+    for span, j in ([(65536, 1)] if tier == 'quick' else [(65535, 1), (65536, 1), (65537, 1), (65536, 2), (65536, 5)]):
+        m = 65536 + 32 * j + 1; lw = 2
+        v0 = 65536 + rng.randrange(0, 4) * 4
+        tail = [v0 + i for i in range(32 * j)]
+        v1 = (((v0 >> lw) + span - 32 * j) << lw) + rng.randrange(0, 4)
+        n = v1 + 1 + rng.randrange(0, 1000)
+        assert 4 * m <= n < 8 * m and tail[-1] < v1
+        ones = list(range(65536)) + tail + [v1]
+        v = ((1 << 65536) - 1)
+        for x in tail + [v1]: v |= 1 << x
+        L = ['case C03-span-%d-%d n=%d ones=%d' % (span, j, n, m), 'new 0 sa new %s 1' % bits_lit(n, v)]
+        for k in sorted(set([0, 1023, 1024, 65535, 65536, 65537, m - 2, m - 1, m] + [rng.randrange(0, m) for _ in range(6)])): L.append('q 0 select1 %d' % k)
+        for p_ in sorted(set([0, n, n - 1, 65535, 65536, v0, v0 + 1, tail[-1], tail[-1] + 1, v1 - 1, v1, v1 + 1] + [rng.randrange(0, n) for _ in range(6)])):
+            if p_ > n: continue
+            for q in ('access', 'rank1', 'predecessor1', 'successor1'): L.append('q 0 %s %d' % (q, p_))
+        L.append('q 0 size_in_bytes')
+        cases.append(L)
     return cases
 
 def mono_seq(rng, tier, ci):
@@ -510,7 +529,9 @@ def bv_mut(rng, oid, n):
         l = rng.choice([0, 1, 5, 63, 64, 65, rng.randrange(0, 66)])
         return 'm %d set_bits %d %d %d' % (oid, pos, rng.getrandbits(64), l), n
     k = rng.choice([0, 1, 63, 64, 65, 130])
-    return 'm %d extend %s' % (oid, bits_lit(k, rng.getrandbits(k) if k else 0)), n + k
+    # one in three through an iterator with another legal size hint (loose upper bound, no upper bound, exact)
+    hint = rng.choice(['', '', ' h0:none', ' h0:%d' % rng.choice([k, k + 1, 2**32, 2**62, MAXU - 1, MAXU]), ' h%d:%d' % (k, rng.choice([k, 2**40, MAXU]))])
+    return 'm %d extend %s%s' % (oid, bits_lit(k, rng.getrandbits(k) if k else 0), hint), n + k
 
 def gen_C07(rng, tier):
     cases = []
@@ -523,7 +544,7 @@ def gen_C07(rng, tier):
             n = rng.choice([0, 1, 63, 64, 65, 128, 200, rng.randrange(0, 1000)]); L.append('new 0 bv from_bit %d %d' % (rng.randrange(2), n))
         else:
             n, v = pick_bits(rng, tier, n=rng.choice([0, 1, 63, 64, 65, 127, 128, 129, rng.randrange(0, 1000)]))
-            L.append('new 0 bv %s %s' % ('from_bits', bits_lit(n, v)) if rng.random() < 0.8 else 'new 0 bv build %s 1 1 1' % bits_lit(n, v))
+            L.append('new 0 bv %s %s%s' % ('from_bits', bits_lit(n, v), rng.choice(['', '', ' h0:none', ' h0:%d' % rng.choice([2**62, MAXU]), ' h%d:%d' % (n, n)])) if rng.random() < 0.8 else 'new 0 bv build %s 1 1 1' % bits_lit(n, v))
         L.append('q 0 words')
         for _ in range(rng.randrange(5, 40)):
             if rng.random() < 0.45:
